@@ -81,6 +81,11 @@ type plDriver struct {
 	AfterDrop     bool
 	ResumeSeekMs  int64
 	ResumeDropped bool
+	// ResumeFromStart: the resumed streams are read from the start of their logs (the pause came before anything was
+	// checkpointed); AfterStop: the driver becomes enabled when a resume driver has stopped the collection (it then runs
+	// concurrently with the resume's StartReadCollection)
+	ResumeFromStart bool
+	AfterStop       bool
 }
 
 type plScenario struct {
@@ -95,6 +100,7 @@ type plScenario struct {
 	PointInAddPartition bool // the per-handler dropped-collection probe inside AddPartition is a scheduling point
 	MsgPosPChannel bool // message positions name the source pchannel (as the MQ layer does) instead of the vchannel
 	HeavyBound int // lower deviation bound for a scenario with many streams
+	Strict     bool // strict cost model for this scenario: every choice other than the default one costs a deviation (arrival orders included)
 	Hooks      string // which verif yield points park: "" = pack.computed + barrier.signal, "all" = every hook
 	Bound      *int // deviation bound override for this scenario
 	DelayPartitionOnTarget bool // downstream partition id appears only when the create-partition event is applied
@@ -373,6 +379,8 @@ type plRun struct {
 	events  []*api.ReplicateAPIEvent
 	mapSnaps       []map[string]string // channel assignment (mapping key -> image) at every scheduling point
 	dropSeen       chan struct{} // closed when the first drop request has been issued
+	stopSeen       chan struct{} // closed when a resume driver has stopped its collection
+	stopOnce       sync.Once
 	dropSeenClosed bool
 	evAt    []int // number of packs delivered (per stream) when the event was observed -> snapshot
 	evDelivered []map[string]int
@@ -435,6 +443,7 @@ func plExecute(t *testing.T, sc *plScenario, ctl *sched.Ctl) *plRun {
 	r := &plRun{sc: sc, ctl: ctl, srcByID: map[string]*plSrcMsg{}, outs: map[string][]*api.ReplicateMsg{}, delivered: map[string]int{},
 		driverErr: map[string]error{}, driverDone: map[string]bool{}, wrapped: map[*replicateChannelHandler]bool{}, inAddPart: map[int64]bool{}, inStart: map[int64]string{}, replicateID: fmt.Sprintf("rid%d", plExecSeq), clockLeft: sc.Clock}
 	r.dropSeen = make(chan struct{})
+	r.stopSeen = make(chan struct{})
 	r.mq = fakemq.New(plSched{r})
 	r.mq.ParkRegister = sc.ParkRegister
 	r.target = &plTarget{colls: map[string]*model.CollectionInfo{}}
@@ -541,6 +550,9 @@ func plExecute(t *testing.T, sc *plScenario, ctl *sched.Ctl) *plRun {
 			if d.AfterDrop {
 				<-r.dropSeen
 			}
+			if d.AfterStop {
+				<-r.stopSeen
+			}
 			r.pt("drv:"+name, "go", true)
 			c := sc.Colls[d.Coll]
 			tctx := plTaskCtx(ctx, "task-"+c.Name)
@@ -572,13 +584,14 @@ func plExecute(t *testing.T, sc *plScenario, ctl *sched.Ctl) *plRun {
 				err = r.mgr.StopReadCollection(tctx, c.info())
 			case "resume":
 				err = r.mgr.StopReadCollection(tctx, c.info())
+				r.stopOnce.Do(func() { close(r.stopSeen) })
 				if err == nil {
 					r.pt("drv:"+name, "resume-start", false)
 					var seek []*msgpb.MsgPosition
 					for _, sh := range c.Shards {
 						pc := funcutil.ToPhysicalChannel(sh.SrcV)
 						id := []byte("start-" + pc)
-						if le := r.mq.LastEnd(sh.SrcV); le != nil {
+						if le := r.mq.LastEnd(sh.SrcV); le != nil && !d.ResumeFromStart {
 							id = le.MsgID // the checkpoint of a stream that had been read to its end
 						}
 						seek = append(seek, &msgpb.MsgPosition{ChannelName: pc, MsgID: id, Timestamp: plTs(d.ResumeSeekMs, 0)})
